@@ -41,8 +41,9 @@ class _Fn:
 def ref_funcs():
     """names usable in reference expressions: cos sin sqrt arccos arcsin arctan2 exp"""
     out = {}
-    for f in ("cos", "sin", "sqrt", "arccos", "arcsin", "arctan2", "arctan", "exp", "abs"):
+    for f in ("cos", "sin", "sqrt", "arccos", "arcsin", "arctan2", "arctan", "exp", "abs", "dot", "transpose", "array"):
         out[f] = ("npfunc", f)
+    out["inv"] = ("npfunc", "linalg.inv")
     return out
 
 
